@@ -359,7 +359,20 @@ def gen_cases(rng, tier):
                 for t in trs:
                     opds = [make_opd(rng, form[i], types[i], o["dom"][i], t[i]) for i in range(3)]
                     cases.append(build_case(o, types, form, opds))
+    cases += anchor_cases()
     return cases
+
+
+def anchor_cases():
+    """fixed (seed-independent) cases for argument classes in which a listed finding lives, so that its key is re-observed under every seed"""
+    out = []
+    o, types, mask = BY_OPNAME["uf_power_f4i8"]
+    base = np.array([17.4375, 2.3125, 9.5625, 0.8125], dtype=np.float32)
+    for form in forms_of(mask, 2):
+        a = Opd("S", "f4", (), base[:1]) if form[0] == "S" else Opd("A", "f4", (4,), base)
+        b = Opd("S", "i8", (), np.array([3], dtype=np.int64)) if form[1] == "S" else Opd("A", "i8", (4,), np.array([3, 5, 3, 5], dtype=np.int64))
+        out.append(build_case(o, types, form, [a, b]))
+    return out
 
 
 # ------------------------------------------------------------------------------------------------ NumPy reference (layer 2)
@@ -384,6 +397,9 @@ def np_reference(o, types, vals, params):
         if W[0] != "f":
             W = "f8"
         xs = [x.astype(NPT[W]) for x in xs]
+    elif w == "float64":
+        W = "f8"
+        xs = [x.astype(np.float64) for x in xs]
     elif w == "promote":
         W = c_promote(types[0])
         xs = [x.astype(NPT[W]) for x in xs]
@@ -568,7 +584,7 @@ def oracle(ctx, cr):
         else:
             xs = [np.broadcast_to(x.values(), eshape) for x in opds] if not o["outer"] else []
             nb = _tol_bad(vals, ref, rtag, xs) if rtag[0] == "f" else np.array([0])
-        if len(nb):
+        if len(nb) and not bad:
             i = int(nb[0])
             ctx.violation("%s:%s:numpy" % (op, form), "%s %s shapes %s: element %d is %r, NumPy reference %r (%s, %d of %d differ)" % (
                 op, form, m["shapes"], i, vals[i], ref[i], cls, len(nb), n), det)
